@@ -22,7 +22,7 @@ from redress import (
 from . import loop as simloop
 from . import seams
 from .clock import SimClock
-from .env import RAISE_CODE, CallState, Env, RecBreaker, RecBudget, SpyBreaker, fnum
+from .env import RAISE_CODE, CallState, Env, FalsySpyBreaker, RecBreaker, RecBudget, SpyBreaker, fnum
 
 SYNC_ENTRIES = ["Retry", "Policy", "RetryPolicy", "Retry.context", "Policy.context", "RetryPolicy.context",
                 "decorator", "Retry.from_config", "RetryPolicy.from_config"]
@@ -95,7 +95,7 @@ class Built:
         br = cfg.get("breaker")
         if br:
             if br.get("kind") == "spy":
-                self.breaker = SpyBreaker(env)
+                self.breaker = FalsySpyBreaker(env) if br.get("falsy") else SpyBreaker(env)
             else:
                 kw = dict(failure_threshold=br.get("failure_threshold", 5),
                           window_s=br.get("window_us", 60_000_000) / 1e6,
@@ -207,12 +207,21 @@ class Built:
                 class_strategies=rkw["strategies"], result_classifier=rkw["result_classifier"],
                 sleep=rkw["sleep"], before_sleep=rkw["before_sleep"], sleeper=rkw["sleeper"], budget=rkw["budget"])
             target = (R if base == "Retry" else RP).from_config(rc, classifier=env.classifier)
-        elif base == "Retry":
-            target = R(**rkw, **att_pol)
-        elif base == "Policy":
-            target = P(retry=R(**rkw, **att_pol), circuit_breaker=self.breaker)
-        elif base == "RetryPolicy":
-            target = RP(**rkw)
+        elif base in ("Retry", "Policy", "RetryPolicy"):
+            # budget_late: the policy is built without a budget and the shared budget is attached afterwards
+            late = bool(self.place.get("budget_late")) and rkw.get("budget") is not None
+            kw = dict(rkw, budget=None) if late else rkw
+            if base == "Retry":
+                target = R(**kw, **att_pol)
+            elif base == "Policy":
+                target = P(retry=R(**kw, **att_pol), circuit_breaker=self.breaker)
+            else:
+                target = RP(**kw)
+            if late:
+                if base == "Policy":
+                    target.retry.budget = rkw["budget"]
+                else:
+                    target.budget = rkw["budget"]
         elif entry == "decorator":
             dkw = dict(rkw)
             dkw.update(on_metric=self.call_kw["on_metric"], on_log=self.call_kw["on_log"],
